@@ -130,6 +130,12 @@ func (m *typecacheMeta) makeType(shape typecacheShape, nonce string, nested bool
 					{Name: "X3", Type: reflect.TypeOf(int(0))}, {Name: "X4", Type: reflect.TypeOf(int(0))}, {Name: "X5", Type: reflect.TypeOf(int(0))}})
 				fs = append(fs, reflect.StructField{Name: nm, Type: inner, Tag: `a:"exist" b:"exist" valid:"exist"`})
 			}
+			// a third inner struct, held by value, WITH a rule set per tag name: Z = 3 violates ge=50 under `valid`, le=1
+			// under `a` and nothing under `b`; exec() checks the clause for Z against the tag of the call and takes it out
+			// of the result, so that the model's expectation (fields of the outer type) stays as it is
+			nz := reflect.StructOf([]reflect.StructField{
+				{Name: "Z", Type: reflect.TypeOf(int(0)), Tag: reflect.StructTag(`valid:"ge=50|m_NZvalid" a:"le=1|m_NZa" vh:` + strconv.Quote(nonce+"/Nz"))}})
+			fs = append(fs, reflect.StructField{Name: "Nz", Type: nz, Tag: `a:"exist" b:"exist" valid:"exist"`})
 		}
 	}
 	return reflect.StructOf(fs)
@@ -409,6 +415,54 @@ func typecacheAbstract(err error) [][2]string {
 	return out
 }
 
+func typecacheTwin1() interface{} {
+	type Req struct {
+		A int `valid:"ge=50|m_tw1" a:"le=1|m_tw1a"`
+	}
+	return &Req{A: 3}
+}
+
+func typecacheTwin2() interface{} {
+	type Req struct {
+		A int `valid:"le=1|m_tw2" a:"ge=50|m_tw2a"`
+	}
+	return &Req{A: 3}
+}
+
+// typecacheTwinProbe validates the twins alternately under two tag names; "" = every call was judged by its own type.
+func typecacheTwinProbe() string {
+	steps := []struct {
+		mk   func() interface{}
+		tag  string
+		want string
+	}{{typecacheTwin1, "valid", "tw1"}, {typecacheTwin2, "valid", "tw2"}, {typecacheTwin2, "a", "tw2a"}, {typecacheTwin1, "a", "tw1a"},
+		{typecacheTwin1, "valid", "tw1"}, {typecacheTwin2, "a", "tw2a"}}
+	if reflect.TypeOf(typecacheTwin1()).String() != reflect.TypeOf(typecacheTwin2()).String() || reflect.TypeOf(typecacheTwin1()) == reflect.TypeOf(typecacheTwin2()) {
+		return "" // (the platform prints them differently: nothing to probe)
+	}
+	for i, st := range steps {
+		var err error
+		func() {
+			defer func() {
+				if r := recover(); r != nil {
+					err = fmt.Errorf("panic: %v", r)
+				}
+			}()
+			if st.tag == "valid" {
+				err = valid.Struct(st.mk())
+			} else {
+				err = valid.ValidateStruct(st.mk(), st.tag)
+			}
+		}()
+		got := typecacheAbstract(err)
+		if len(got) != 1 || got[0][1] != st.want {
+			return fmt.Sprintf("twin types (two function-local struct types printing %s): call %d under tag %s returned %v, its own rule gives [[A %s]]",
+				reflect.TypeOf(st.mk()).String(), i+1, st.tag, got, st.want)
+		}
+	}
+	return ""
+}
+
 // exec performs one validation call against the real library and returns the abstracted result.
 func (d *typecacheDriver) exec(id string, shape typecacheShape, tag string, ov map[string]string, val map[string]int) (res [][2]string) {
 	t := d.typeOf(id, shape)
@@ -427,6 +481,11 @@ func (d *typecacheDriver) exec(id string, shape typecacheShape, tag string, ov m
 		if nx := pv.Elem().FieldByName(nm); nx.IsValid() {
 			nx.Field(0).SetInt(1) // non-zero, so that `exist` enters it
 		}
+	}
+	hasNz := false
+	if nz := pv.Elem().FieldByName("Nz"); nz.IsValid() {
+		nz.Field(0).SetInt(3)
+		hasNz = true
 	}
 	var rm valid.RM
 	d.rmCalls++
@@ -470,6 +529,22 @@ func (d *typecacheDriver) exec(id string, shape typecacheShape, tag string, ov m
 		}
 		res = typecacheAbstract(err)
 	}()
+	if hasNz && (tag == "valid" || tag == "a" || tag == "b") && !(len(res) == 1 && res[0][0] == "!") {
+		want := map[string]string{"valid": "NZvalid", "a": "NZa", "b": ""}[tag]
+		kept, got := [][2]string{}, []string{}
+		for _, c := range res {
+			if c[0] == "Z" {
+				got = append(got, c[1])
+			} else {
+				kept = append(kept, c)
+			}
+		}
+		ok := (want == "" && len(got) == 0) || (want != "" && len(got) == 1 && got[0] == want)
+		res = kept
+		if !ok { // shows up as a clause the contract does not allow
+			res = append(res, [2]string{"Nz.Z", fmt.Sprintf("nested struct judged under the wrong tag: want [%s] got %v (call tag %s)", want, got, tag)})
+		}
+	}
 	// statistics (counting only)
 	if len(res) > 0 {
 		d.st.NonNil++
@@ -613,6 +688,12 @@ func typecacheReplay(args []string) error {
 				break
 			}
 		}
+	}
+	// twin types: two different struct types that print the same name (function-local types called Req).  A cache -
+	// the built-in one or one installed by the user - must keep them apart under every tag name.
+	if bad := typecacheTwinProbe(); bad != "" {
+		mis++
+		out.put(map[string]interface{}{"kind": "twin", "cache": *cache, "detail": bad})
 	}
 	out.put(map[string]interface{}{"kind": "summary", "cache": *cache, "histories": done, "seen": n, "calls": calls,
 		"expected_nonnil": nonnil, "mismatches": mis, "stats": d.st})
